@@ -1048,6 +1048,48 @@ Proof.
     + assert (X : false = true) by (apply H1, H2; reflexivity). discriminate X.
 Qed.
 
+(* consumer forms (CLAUSES C06 (c)2): in the states in which the rule databases read the equivalence database
+   (a cycle detection followed by set_verified calls, queries and further detections) the PURE representative
+   function decides "same strongly connected component of the recorded graph", and a label is verified exactly
+   when some marked label lies in its strongly connected component *)
+Theorem C06_same_is_scc : forall ops qs s rs,
+  Forall is_neutral2 qs -> exec order init (ops ++ Connect :: qs) = Some (s, rs) ->
+  forall a b, same s a b <->
+    (clos_refl_trans Z (recorded ops) a b /\ clos_refl_trans Z (recorded ops) b a).
+Proof.
+  intros ops qs s rs F E a b.
+  pose proof (reach_inv order order_In _ _ _ E) as I.
+  assert (X : forall u v, clos_refl_trans Z (recorded (ops ++ Connect :: qs)) u v <->
+                          clos_refl_trans Z (recorded ops) u v).
+  { apply clos_rt_iff. intros u v. apply C06_neutral_records_nothing; auto. }
+  split.
+  - intros S. split; apply X; apply (HInv_reach _ _ _ _ I); eapply inv_sound; eauto.
+    apply same_sym. exact S.
+  - intros (R1 & R2).
+    apply (complete_after_connect_neutral2 order order_In ops qs s rs a b F E); apply X; assumption.
+Qed.
+
+Theorem C06_repf_is_scc : forall ops qs s rs,
+  Forall is_neutral2 qs -> exec order init (ops ++ Connect :: qs) = Some (s, rs) ->
+  forall a b, repf s a = repf s b <->
+    (clos_refl_trans Z (recorded ops) a b /\ clos_refl_trans Z (recorded ops) b a).
+Proof.
+  intros ops qs s rs F E a b.
+  rewrite (repf_same s a b (exec_wf order order_len _ _ _ _ wf_init E)).
+  exact (C06_same_is_scc ops qs s rs F E a b).
+Qed.
+
+Theorem C06_verified_scc : forall ops qs s rs a s' v,
+  Forall is_neutral2 qs -> exec order init (ops ++ Connect :: qs) = Some (s, rs) ->
+  is_verified s a = Some (s', v) ->
+  (v = true <-> exists b, marked (ops ++ Connect :: qs) b /\
+     clos_refl_trans Z (recorded ops) a b /\ clos_refl_trans Z (recorded ops) b a).
+Proof.
+  intros ops qs s rs a s' v F E Q.
+  rewrite (C06_verified order order_In _ s rs a s' v E Q).
+  split; intros (b & M & S); exists b; (split; [exact M|]); apply (C06_same_is_scc ops qs s rs F E a b); exact S.
+Qed.
+
 End C06_total.
 
 Theorem C06_total_needs_order_len :
@@ -1213,6 +1255,24 @@ Proof.
   split; [intros [S|(a & b & E & _)]; [exact S|discriminate E]|left; assumption].
 Qed.
 
+(* covers C06_repf_is_scc / C06_verified_scc on the neutral suffix a6_ns (set_verified, queries, a second
+   connect_cycles): 3 and 8 have the same representative, 5 and 1 do not; 3 is verified through the marked 4 *)
+Example C06_repf_is_scc_nonvacuous :
+  (repf a6_sN 3 = repf a6_sN 8 <->
+     clos_refl_trans Z (recorded a6_ops) 3 8 /\ clos_refl_trans Z (recorded a6_ops) 8 3) /\
+  repf a6_sN 3 = repf a6_sN 8 /\ repf a6_sN 5 <> repf a6_sN 1.
+Proof.
+  split; [exact (C06_repf_is_scc isort isort_In isort_len a6_ops a6_ns a6_sN a6_rsN a6_ns_neutral a6_execN 3 8)|].
+  split; [vm_compute; reflexivity|vm_compute; discriminate].
+Qed.
+Example C06_verified_scc_nonvacuous :
+  exists b, marked (a6_ops ++ Connect :: a6_ns) b /\
+    clos_refl_trans Z (recorded a6_ops) 3 b /\ clos_refl_trans Z (recorded a6_ops) b 3.
+Proof.
+  eapply (C06_verified_scc isort isort_In a6_ops a6_ns a6_sN a6_rsN 3 _ true a6_ns_neutral a6_execN);
+    [vm_compute; reflexivity|reflexivity].
+Qed.
+
 (* covers C06_equivalent_order_independent: the stale history above under the DESCENDING iteration order
    (another representative in several classes) answers equivalent(5,7) and equivalent(5,9) alike *)
 Definition rsort (l : list Z) : list Z := rev (isort l).
@@ -1277,3 +1337,6 @@ Print Assumptions C06_exact_partition_before_connect.
 Print Assumptions C06_exact_partition_total.
 Print Assumptions C06_exact_partition_before_connect_total.
 Print Assumptions C06_equivalent_order_independent.
+Print Assumptions C06_same_is_scc.
+Print Assumptions C06_repf_is_scc.
+Print Assumptions C06_verified_scc.
